@@ -154,7 +154,7 @@ claim(
     "C10",
     "Lean 4 proof (canonical-form theorem for applicable pass sequences; legality preserved by every pass; flags = passes) + pipeline table regenerated from the Python ASTs + differential correspondence over random pass sequences",
     "Theorems C10_canonical, C10_commute_meaning, C10_commute_perm, the six pairwise C10_comm_* lemmas, C10_idempotent (all four passes: a second application returns the same circuit; for fill_in_let with any second override dictionary) and C10_idempotent_meaning, C10_flags(_ok), C10_legal_preserved, C10_applicable_of_legal prove that any orders and repetitions of an applicable sequence of the four passes give the same meaning (with 'applicable' made precise: every intermediate circuit legal, and alias fill-in not baking in a let that the overrides in force change; subcircuit expansion acts through the semantic map spellSem), that every pass applied twice returns what it returns once, that every pass preserves legality (both well-formedness predicates and the deep register-chain invariant), and that the parser's expand flags are exactly the passes applied to the plain parse. The pass orders of parse_jaqal_string / run_jaqal_circuit / parse_jaqal_output_list are read out of the Python ASTs on every run and compared with the model's table.",
-    COMMON_NOTE + "Legality is the model's decidable predicate `Legal` (what the builder accepts); Props/ParsedC10.lean proves it of every parsed circuit and so states the property from texts: C10_legal_parsed, C10_legal_preserved_parsed / C10_legal_seq_parsed (every pass, every sequence of passes on a parsed circuit gives a Legal circuit), C10_applicable_parsed (every sequence without fill_in_map is applicable from a parsed circuit — no hypothesis), C10_commute_parsed (two sequences with the same passes and overrides, both succeeding on a parsed circuit that has a meaning, give the same meaning), C10_commute_parsed_map / C10_applicable_parsed_side (with fill_in_map: under the side condition of its steps only), C10_idempotent_parsed / C10_idempotent_seq_parsed; Props/ParsedEx.lean evaluates all premises on a concrete text (non-vacuity). that the generated TEXT of a legal circuit parses back (C10_legal_text_partial) has C01's round trip as hypothesis and is covered by the direct oracle legal_after_pass. One open known finding (defaulted-stop-frozen, see C05) can surface under overrides; it is excluded by `Applicable`.",
+    COMMON_NOTE + "One open known finding (subs-bounding-not-reparsable, known_findings.txt): the LAST clause of C10 is false of the code and of the model for expand_subcircuits in two shapes — no gate set in force while the program itself calls prepare_all / measure_all with arguments, and a gate set in force that does not define them — where the generated text of the pass result does not parse back (Props/C10Text.lean: C10_text_subs_refuted, C10_text_subs_refuted_natives, found by the attempt to prove the clause; both witnesses are evaluated on the real code on every run and printed as KNOWN-FINDING; any other failure of legal_after_pass is a violation). Proved towards the clause: C10_text_reduces (for any printable, lex-safe circuit the re-parse of the generated text IS the builder run on unbuild c), C10_printable_subs / C10_namesOK_subs / C10_lexsafe_subs / C10_text_subs_layers (layers A and B for expand_subcircuits results of parsed circuits), C10_text_of_layerC / C10_text_subs_partial / C10_text_partial (the clause from the remaining layer), with C10_printable_full, C10_layerC_full, C10_text_full, C10_text_subs_full kept as named propositions. Legality is the model's decidable predicate `Legal` (what the builder accepts); Props/ParsedC10.lean proves it of every parsed circuit and so states the property from texts: C10_legal_parsed, C10_legal_preserved_parsed / C10_legal_seq_parsed (every pass, every sequence of passes on a parsed circuit gives a Legal circuit), C10_applicable_parsed (every sequence without fill_in_map is applicable from a parsed circuit — no hypothesis), C10_commute_parsed (two sequences with the same passes and overrides, both succeeding on a parsed circuit that has a meaning, give the same meaning), C10_commute_parsed_map / C10_applicable_parsed_side (with fill_in_map: under the side condition of its steps only), C10_idempotent_parsed / C10_idempotent_seq_parsed; Props/ParsedEx.lean evaluates all premises on a concrete text (non-vacuity). that the generated TEXT of a legal circuit parses back (C10_legal_text_partial) has C01's round trip as hypothesis and is covered by the direct oracle legal_after_pass. One open known finding (defaulted-stop-frozen, see C05) can surface under overrides; it is excluded by `Applicable`.",
     "DESIGN.md §7 C10",
 )
 claim(
